@@ -302,8 +302,26 @@ func (w *World) batchMap(src *atree.OrderedMap, dig *TableDigesterBuilder) (*atr
 	if err != nil {
 		return nil, err
 	}
-	return atree.NewMapFromBatchData(w.St, w.Addr, dig, src.Type(), testutils.CompareValue, testutils.GetHashInput, src.Seed(),
+	var db atree.DigesterBuilder = atree.NewDefaultDigesterBuilder() // sources driven with the built-in (pooled) digester
+	if dig != nil {
+		db = dig
+	}
+	return atree.NewMapFromBatchData(w.St, w.Addr, db, src.Type(), testutils.CompareValue, testutils.GetHashInput, src.Seed(),
 		func() (atree.Value, atree.Value, error) { return it.Next() })
+}
+
+// lookupsAgree counts the entries of src that a lookup in dst finds with the same value: a container built from a stream must
+// be usable as a dictionary, not only enumerable.
+func (w *World) lookupsAgree(src, dst *atree.OrderedMap) int {
+	n := 0
+	_ = src.IterateReadOnly(func(k, v atree.Value) (bool, error) {
+		got, err := dst.Get(testutils.CompareValue, testutils.GetHashInput, k)
+		if err == nil && w.absOfValue(got).V == w.absOfValue(v).V {
+			n++
+		}
+		return true, nil
+	})
+	return n
 }
 
 // disposeArray / disposeMap release a container the harness created (deep).
@@ -353,6 +371,7 @@ func (w *World) RunProbes(t int, root string, which map[string]bool, rng *rand.R
 			bm, err = w.batchMap(h.Map, h.Dig)
 			if err == nil {
 				other = w.observeOther("batch", "M", nil, bm, h.Dig)
+				other[0].Lk = w.lookupsAgree(h.Map, bm)
 			}
 		}
 		r := w.rec(t, ev("Batch"), Op{H: root}, resOf(err))
@@ -385,10 +404,16 @@ func (w *World) RunProbes(t int, root string, which map[string]bool, rng *rand.R
 			}
 		} else {
 			can = h.Map.CanCopyNonRefSimple()
-			dig := &TableDigesterBuilder{Table: w.DigTable, Default: w.DigDefault}
-			cm, err = h.Map.CopyNonRefSimple(w.Addr, dig)
+			var dig *TableDigesterBuilder
+			var db atree.DigesterBuilder = atree.NewDefaultDigesterBuilder() // source driven with the built-in digester
+			if h.Dig != nil {
+				dig = &TableDigesterBuilder{Table: w.DigTable, Default: w.DigDefault}
+				db = dig
+			}
+			cm, err = h.Map.CopyNonRefSimple(w.Addr, db)
 			if err == nil {
 				other = w.observeOther("copy", "M", nil, cm, dig)
+				other[0].Lk = w.lookupsAgree(h.Map, cm)
 			}
 		}
 		r := w.rec(t, ev("Copy"), Op{H: root}, resOf(err))
